@@ -97,7 +97,11 @@ Items == <<
   \* 46: h1|contains: 'c:\\x'
   [field |-> <<104, 49>>, chain |-> <<<<99, 111, 110, 116, 97, 105, 110, 115>>>>, vals |-> <<SS(<<99, 58, 92, 120>>)>>, single |-> TRUE],
   \* 47: h2|cidr: '10.0.0.0/7'
-  [field |-> <<104, 50>>, chain |-> <<<<99, 105, 100, 114>>>>, vals |-> <<SS(<<49, 48, 46, 48, 46, 48, 46, 48, 47, 55>>)>>, single |-> TRUE]
+  [field |-> <<104, 50>>, chain |-> <<<<99, 105, 100, 114>>>>, vals |-> <<SS(<<49, 48, 46, 48, 46, 48, 46, 48, 47, 55>>)>>, single |-> TRUE],
+  \* 48: h3|re: ['a.*b', 'c?d']
+  [field |-> <<104, 51>>, chain |-> <<<<114, 101>>>>, vals |-> <<SS(<<97, 46, 42, 98>>), SS(<<99, 63, 100>>)>>, single |-> FALSE],
+  \* 49: h4|: []
+  [field |-> <<104, 52>>, chain |-> <<>>, vals |-> <<>>, single |-> FALSE]
 >>
 KwLists == <<
   <<SS(<<102, 111, 111>>), SS(<<98, 97, 42, 114>>)>>,
